@@ -395,9 +395,146 @@ pub fn run_c17(args: &Args) {
             out.violation(key, what, log);
         }
     }
+    controller_level(&mut out, &mut rng, if thorough { 300 } else { 40 });
     out.sample("reset 2 … / send clear / send silsteps 1 1 0 / send reads 1 / send foci 3 1 255:0 … / clk / thermo 0 1 / send firminfo 1..6 / clk …".into());
     out.finish(
         "fw_c17",
         "a case = a random history of writes/swaps with immediate transitions, per-device state reading, thermal sensor toggles and interleaved firmware_version query sequences; after every step + clock update the decoded state byte (FPGAState::from_rx) is compared with what the emulator is playing; distinct by history",
     );
+}
+
+
+// ---- C17 through the real `Controller` (fpga_state(), firmware_version()) with the Audit link: implementation
+// oracle only (the Audit link reads the wall clock; only immediate transitions are used, so what is playing does
+// not depend on it). Each case leaves one `note` line in the stream so that the counts stay aligned.
+
+struct CtlSend<'a> {
+    autd: &'a mut Controller<autd3::link::Audit>,
+}
+impl DgVisitor for CtlSend<'_> {
+    type R = Result<(), AUTDDriverError>;
+    fn visit<D>(self, d: D) -> Self::R
+    where
+        D: autd3_core::datagram::Datagram,
+        AUTDDriverError: From<D::Error>,
+        D::G: autd3_driver::firmware::operation::OperationGenerator,
+        AUTDDriverError: From<<<D::G as autd3_driver::firmware::operation::OperationGenerator>::O1 as autd3_core::datagram::Operation>::Error>
+            + From<<<D::G as autd3_driver::firmware::operation::OperationGenerator>::O2 as autd3_core::datagram::Operation>::Error>,
+    {
+        self.autd.send(d)
+    }
+}
+
+fn controller_level(out: &mut Out, rng: &mut Rng, ncases: usize) {
+    use autd3::link::{Audit, AuditOption};
+    for c in 0..ncases {
+        let ndev = rng.range(1, 4) as usize;
+        let mut desc: Vec<String> = vec![format!("n{ndev}")];
+        let r = guarded(|| -> Option<String> {
+            let mut autd = Controller::open((0..ndev).map(|_| AUTD3::default()), Audit::new(AuditOption::default())).ok()?;
+            let _ = autd.send(Silencer::new(autd3_driver::datagram::FixedCompletionSteps {
+                intensity: std::num::NonZeroU16::MIN,
+                phase: std::num::NonZeroU16::MIN,
+                strict_mode: false,
+            }));
+            let mut reads_mask = 0u32;
+            for step in 0..rng.range(3, 14) {
+                match rng.below(9) {
+                    0 => {
+                        reads_mask = rng.below(1 << ndev) as u32;
+                        let m = reads_mask;
+                        desc.push(format!("reads{m:b}"));
+                        let _ = autd.send(ReadsFPGAState::new(move |dev| (m >> dev.idx()) & 1 == 1));
+                    }
+                    1 => {
+                        let d = rng.below(ndev as u64) as usize;
+                        let on = rng.chance(1, 2);
+                        desc.push(format!("thermo{d}{}", on as u8));
+                        if on {
+                            autd.link_mut()[d].fpga_mut().assert_thermal_sensor();
+                        } else {
+                            autd.link_mut()[d].fpga_mut().deassert_thermal_sensor();
+                        }
+                    }
+                    2 => {
+                        // disable / enable a device, then ask for the firmware versions
+                        let d = rng.below(ndev as u64) as usize;
+                        let en = rng.chance(1, 2);
+                        autd.geometry_mut()[d].enable = en;
+                        desc.push(format!("enable{d}{}", en as u8));
+                    }
+                    3 => {
+                        desc.push("firmware_version".into());
+                        let before = autd.fpga_state().ok()?;
+                        let v = match autd.firmware_version() {
+                            Ok(v) => v,
+                            Err(e) => return Some(format!("firmware_version() failed: {e:?}")),
+                        };
+                        let enabled: Vec<usize> = autd.geometry().iter().filter(|d| d.enable).map(|d| d.idx()).collect();
+                        let got: Vec<usize> = v.iter().map(|x| x.idx).collect();
+                        if got != enabled {
+                            return Some(format!("firmware_version() returned devices {got:?}, enabled are {enabled:?}"));
+                        }
+                        for x in &v {
+                            if x.cpu.major.0 != 0xA3 || x.fpga.major.0 != 0xA3 || x.cpu.minor.0 != 0 || x.fpga.minor.0 != 0 {
+                                return Some(format!("firmware_version() of device {}: {:?}", x.idx, x));
+                            }
+                        }
+                        let after = autd.fpga_state().ok()?;
+                        // state reading must work as before for every enabled device (a disabled device did not get the closing query)
+                        for &i in &enabled {
+                            if before[i].is_some() != after[i].is_some() {
+                                return Some(format!("device {i}: fpga_state() was {:?} before firmware_version() and {:?} after (step {step})", before[i], after[i]));
+                            }
+                        }
+                    }
+                    _ => {
+                        let seg = rng.below(2) as u8;
+                        let sp = match rng.below(6) {
+                            0 => Spec::Gain { seg, tr: Some((0xFF, 0)), seed: 1 },
+                            1 => Spec::Foci { n: rng.range(1, 8) as usize, seg, tr: Some((0xFF, 0)), rep: 0xFFFF, div: 100, ss: 21760, size: 3, seed: 2 },
+                            2 => Spec::GainStm { mode: 0, seg, tr: Some((0xFF, 0)), rep: 0xFFFF, div: 100, size: 2, seed: 3 },
+                            3 => Spec::Mod { seg, tr: Some((0xFF, 0)), rep: 0xFFFF, div: 10, n: 5, seed: 4 },
+                            4 => Spec::SwapMod(seg, (0xFF, 0)),
+                            _ => Spec::SwapGain(seg, (0xFF, 0)),
+                        };
+                        desc.push(sp.kind().into());
+                        let _ = build(&sp, CtlSend { autd: &mut autd });
+                    }
+                }
+                let st = match autd.fpga_state() {
+                    Ok(s) => s,
+                    Err(e) => return Some(format!("fpga_state() failed: {e:?}")),
+                };
+                for i in 0..ndev {
+                    let cpu = &autd.link()[i];
+                    let f = cpu.fpga();
+                    match (cpu.reads_fpga_state(), st[i]) {
+                        (false, None) => {}
+                        (true, Some(s)) => {
+                            let cur = f.current_stm_segment();
+                            let single = f.stm_cycle(cur) == 1;
+                            if s.is_thermal_assert() != f.is_thermo_asserted()
+                                || s.current_mod_segment() != f.current_mod_segment()
+                                || (single && (s.current_gain_segment() != Some(cur) || s.current_stm_segment().is_some()))
+                                || (!single && (s.current_stm_segment() != Some(cur) || s.current_gain_segment().is_some()))
+                            {
+                                return Some(format!("device {i}: fpga_state() = {s:?} but the device plays mod {:?}, stm {cur:?} (single pattern: {single}), thermal {}", f.current_mod_segment(), f.is_thermo_asserted()));
+                            }
+                        }
+                        (a, b) => return Some(format!("device {i}: state reading enabled = {a} but fpga_state() = {b:?}")),
+                    }
+                }
+            }
+            None
+        });
+        out.line(&format!("note ctl {c}"), "ok");
+        out.case(Some(fnv64(desc.join("/").as_bytes()) ^ c as u64));
+        out.count("controller-level");
+        match r {
+            Ok(None) => {}
+            Ok(Some(m)) => out.violation(format!("C17:ctl:{}", desc.join("/")), m, desc.clone()),
+            Err(p) => out.violation(format!("C17:ctl-panic:{}", panic_key(&p)), format!("panic through the Controller: {p}"), desc.clone()),
+        }
+    }
 }
